@@ -12,3 +12,10 @@ import (
 func VMembershipFactory() gossip.TaskFactory  { return membershipFactory{log.L().Named("verif.auditor")} }
 func VIncrementalFactory() gossip.TaskFactory { return incrementalFactory{log.L().Named("verif.monitor")} }
 func VPublisherFactory() gossip.TaskFactory   { return publisherFactory{log.L().Named("verif.publisher")} }
+
+// VRunRestore runs the `qed restore` command body (runRestore) with the given parameters.
+func VRunRestore(backupDir string, backupID uint32, restorePath string) error {
+	params := restoreCtx.Value(k("restore.config")).(*RestoreConfig)
+	params.BackupDir, params.BackupID, params.RestorePath = backupDir, backupID, restorePath
+	return runRestore(restoreCmd, nil)
+}
